@@ -158,7 +158,7 @@ def run(tier: str, seed: int) -> int:
         groups.setdefault((st["D"], st["N"], st["C"], st["band"]), []).append(st)
     nsamp = 0
     for (D, N, C, band), sts in sorted(groups.items()):
-        L = float(rng.choice([1.0, 2 * math.pi, 0.37, 5.0, 12.5]))
+        L = float(rng.choice([1.0, 2 * math.pi, 0.37, 5.0, 12.5, 0.02, 0.004, 150.0]))
         low = None if band[0] == NOB else band[0]
         high = None if band[1] == NOB else band[1]
         full = band == (NOB, NOB)
@@ -223,7 +223,7 @@ def run(tier: str, seed: int) -> int:
     for D, N in ((1, 16), (1, 15), (2, 8), (2, 9), (3, 6), (3, 5)):
         for rep in range(reps):
             C = int(rng.integers(1, 4))
-            L = float(rng.choice([1.0, 2 * math.pi, 0.37, 7.0]))
+            L = float(rng.choice([1.0, 2 * math.pi, 0.37, 7.0, 0.01, 0.003, 90.0]))
             u = rng.standard_normal((C,) + (N,) * D)
             v = rng.standard_normal((C,) + (N,) * D) * 0.7 + 0.2
             ju, jv = jnp.asarray(u), jnp.asarray(v)
@@ -274,14 +274,15 @@ def run(tier: str, seed: int) -> int:
                 if meta["form"] in ("abs", "sym"):
                     chk(f"symmetry:{nm}", f(jv, ju, domain_extent=L), base)
                 if meta["deriv"] == "no":
-                    lam = 3.0
                     if meta["form"] != "abs":
                         p = 0.0
                     elif meta["inner"] == 1 and meta["fourier"]:
                         p = D
                     else:
                         p = D * (1.0 if meta["outer"] == "id" else 0.5)
-                    chk(f"L-scaling:{nm}", f(ju, jv, domain_extent=lam * L), lam ** p * base)
+                    # the documented L^p law over many decades of the domain extent (tiny and huge boxes included), every time
+                    for Lx in (3.0 * L, 2e-3, 0.05, 40.0, 3e3):
+                        chk(f"L-scaling:{nm}", f(ju, jv, domain_extent=Lx), (Lx / L) ** p * base, tol=1e-9)
             # derivative variants scale like L^(D-2) (inner 2, outer id)
             chk("L-scaling:fourier_MSE-deriv", M.fourier_MSE(ju, jv, domain_extent=3.0 * L, derivative_order=1),
                 3.0 ** (D - 2) * float(M.fourier_MSE(ju, jv, domain_extent=L, derivative_order=1)))
